@@ -169,4 +169,84 @@ class PhaseSetsAreComponents(BCheck):
         return None
 
 
-B_CHECKS = [FindComponents(), PhaseSetsAreComponents()]
+class PedPhaseSets(BCheck):
+    name = "C03.ped-phase-sets"
+    contract = ("`whatshap phase --ped`: every phased call's phase-set id equals 1 + the minimum position of its component, where components are the "
+                "read-connected components over the reads handed to the solver, with all components touching a variant that is homozygous in some family "
+                "member (after phasing, when genotypes are distrusted) merged into one -- unless --no-genetic-haplotyping is given")
+    rule = ("seeded trios/quartets (shuffled sample columns, optional unrelated sample), 0-3 phased VCFs as reads, x {trusted, --distrust-genotypes} x "
+            "{genetic haplotyping on, off}; non-trivial = the family's solver call has >= 2 columns")
+    budget_s = {"quick": 90, "thorough": 900}
+    chunk = 10
+
+    def inputs(self, tier, rng):
+        from scenario import pedigree as PED
+        for i in range(700 if tier == "quick" else 12000):
+            r = random.Random(rng.getrandbits(64))
+            fam = r.choice([("trio",), ("quartet",)])
+            g = PED.generate(r, families=fam, unrelated=r.choice([0, 1]), k_files=(0, 3), cover=0.6, reads_per_file=(1, 3))
+            yield dict(main_vcf=g["main_vcf"], phase_vcfs=g["phase_vcfs"], ped=g["ped"], distrust=(i % 2 == 1), genetic=(i % 4 != 3),
+                       tag="PS" if i % 3 else "HP")
+
+    def check(self, inp):
+        from runtime.phase_driver import run_phase
+        res = run_phase(inp["main_vcf"], inp["phase_vcfs"], ped=inp["ped"], tag=inp["tag"], distrust_genotypes=inp["distrust"],
+                        genetic_haplotyping=inp["genetic"])
+        if res["error"]:
+            return dict(expected="run succeeds", observed=res["error"], traceback=res.get("traceback"))
+        samples, records, phase = PH.decode_phasing(res["out"])
+        _, _, inrecs = V.parse(inp["main_vcf"])
+        exp = {}
+        for call in res["solver_calls"]:
+            fam = call["family"]
+            reads = [[v[0] for v in rd["variants"]] for rd in call["reads"]]
+            positions = list(call["positions"]) if call["positions"] is not None else sorted({p for rd in reads for p in rd})
+            master = None
+            if len(fam) > 1 and inp["genetic"]:
+                hom = set()
+                if inp["distrust"]:
+                    for sr in call.get("superreads", []):
+                        for v0, v1 in zip(sr[0]["variants"], sr[1]["variants"]):
+                            if (v0[1], v1[1]) in ((0, 0), (1, 1)):
+                                hom.add(v0[0])
+                    het = {}
+                    # under distrust, component building is restricted per read to positions heterozygous (after phasing) in that read's sample
+                    for s, sr in zip(fam, call.get("superreads", [])):
+                        het[s] = {v0[0] for v0, v1 in zip(sr[0]["variants"], sr[1]["variants"]) if (v0[1], v1[1]) in ((0, 1), (1, 0))}
+                else:
+                    for ri, rec in enumerate(inrecs):
+                        if rec["chrom"] != call["chromosome"]:
+                            continue
+                        for s in fam:
+                            al = V.gt_alleles(rec["calls"][samples.index(s)]["GT"])[0]
+                            if None not in al and al[0] == al[1]:
+                                hom.add(rec["pos"] - 1)
+                master = sorted(hom & set(positions))
+            eff = reads
+            if inp["distrust"]:
+                het = {}
+                for s, sr in zip(fam, call.get("superreads", [])):
+                    het[s] = {v0[0] for v0, v1 in zip(sr[0]["variants"], sr[1]["variants"]) if (v0[1], v1[1]) in ((0, 1), (1, 0))}
+                eff = []
+                for rd in call["reads"]:
+                    s = rd["name"].rsplit("_phase_", 1)[0]
+                    eff.append([v[0] for v in rd["variants"] if v[0] in het.get(s, set())])
+            comp = components_by_search(positions, eff, master)
+            for s in fam:
+                exp[(call["chromosome"], s)] = comp
+        for ri, rec in enumerate(records):
+            for s in samples:
+                if ri not in phase[s]:
+                    continue
+                comp = exp.get((rec["chrom"], s), {})
+                p0 = rec["pos"] - 1
+                blk = phase[s][ri][0]
+                if p0 not in comp:
+                    return dict(expected="%s:%d sample %s phased only if accessible" % (rec["chrom"], rec["pos"], s), observed=blk)
+                if blk != comp[p0] + 1:
+                    return dict(expected="%s:%d sample %s phase set %d (distrust=%s, genetic=%s)" % (rec["chrom"], rec["pos"], s, comp[p0] + 1, inp["distrust"], inp["genetic"]),
+                                observed=blk)
+        return None
+
+
+B_CHECKS = [FindComponents(), PhaseSetsAreComponents(), PedPhaseSets()]
